@@ -24,6 +24,9 @@ type UnsafePool struct {
 	pendingFinalize sortableVals         // Values pending Lua finalization
 	pendingRelease  sortableVals
 	lastMarkOrder   int // this is to sort values by reverse order of mark for finalize
+
+	// Pool of the enclosing context, if any (see SetParent).
+	parent *UnsafePool
 }
 
 var _ Pool = &UnsafePool{}
@@ -33,8 +36,39 @@ func NewUnsafePool() *UnsafePool {
 	return &UnsafePool{weakrefs: make(map[uintptr]*weakRef)}
 }
 
+// SetParent tells p that q is the pool of the enclosing runtime context.  A
+// value which the pool of an enclosing context already knows stays with that
+// pool: the Go runtime allows only one finalizer per object, and the value
+// outlives the inner context anyway.
+func (p *UnsafePool) SetParent(q Pool) {
+	if uq, ok := q.(*UnsafePool); ok && uq != p {
+		p.parent = uq
+	}
+}
+
+// tracks returns true if p has a weak ref for v.
+func (p *UnsafePool) tracks(v Value) bool {
+	p.mx.Lock()
+	defer p.mx.Unlock()
+	return p.weakrefs[getwiface(v).id()] != nil
+}
+
+// owner returns the pool of an enclosing context which already has a weak ref
+// for v, or nil if there is none.
+func (p *UnsafePool) owner(v Value) *UnsafePool {
+	for q := p.parent; q != nil; q = q.parent {
+		if q.tracks(v) {
+			return q
+		}
+	}
+	return nil
+}
+
 // Get returns a WeakRef for v if possible.
 func (p *UnsafePool) Get(v Value) WeakRef {
+	if q := p.owner(v); q != nil {
+		return q.Get(v)
+	}
 	p.mx.Lock()
 	defer p.mx.Unlock()
 	return p.get(v)
@@ -47,6 +81,10 @@ func (p *UnsafePool) get(v Value) *weakRef {
 	id := w.id()
 	r := p.weakrefs[id]
 	if r == nil {
+		// v may still carry the go finalizer of a pool that has been
+		// discarded; setting a second one is a fatal error in the Go runtime,
+		// so clear it first.
+		setFinalizer(v, nil)
 		setFinalizer(v, p.goFinalizer)
 		r = &weakRef{
 			w:    w,
@@ -61,6 +99,11 @@ func (p *UnsafePool) get(v Value) *weakRef {
 // should be run.  It only takes effect if v can have a weak ref.
 func (p *UnsafePool) Mark(v Value, flags MarkFlags) {
 	if flags == 0 {
+		return
+	}
+	if q := p.owner(v); q != nil {
+		// The value belongs to an enclosing context: keep it there.
+		q.Mark(v, flags)
 		return
 	}
 	p.mx.Lock()
